@@ -28,7 +28,7 @@ pub struct RtCase {
     /// request timeout of the client (far above anything that happens here)
     pub client_timeout_ms: Option<u16>,
     pub cont: bool,
-    /// settings before (1) or after (0) the calls that rebuild the builder
+    /// settings before (1, 2) or after (0) the calls that rebuild the builder; 2 also switches the redirect policy off and on again
     pub builder_order: u8,
     /// rounds: (handler delays of the concurrent requests: false = at once, true = 70 ms; pause after the round: 0 / 5 / 70 ms)
     pub rounds: Vec<(Vec<bool>, u8)>,
@@ -118,7 +118,18 @@ impl RtPoolEngine {
                 cfg.continue_after_preemption = c2.cont;
                 let timeout = c2.client_timeout_ms.map(|t| Duration::from_millis(t as u64));
                 let transport = hyperdriver::client::conn::transport::duplex::DuplexTransport::new(8192, client);
-                let svc = if c2.builder_order % 2 == 1 {
+                let svc = if c2.builder_order % 3 == 2 {
+                    // settings first, then the calls that change the redirect policy (no redirect happens here)
+                    hyperdriver::Client::builder()
+                        .with_optional_timeout(timeout)
+                        .with_pool(cfg)
+                        .with_transport(transport)
+                        .with_auto_http()
+                        .without_tls()
+                        .without_redirects()
+                        .with_standard_redirect_policy()
+                        .build_service()
+                } else if c2.builder_order % 3 == 1 {
                     hyperdriver::Client::builder()
                         .with_optional_timeout(timeout)
                         .with_pool(cfg)
@@ -253,7 +264,7 @@ pub fn strategy() -> impl proptest::strategy::Strategy<Value = RtCase> {
         prop_oneof![Just(0u8), Just(1u8), Just(2u8), Just(8u8)],
         prop_oneof![1 => Just(None), 1 => Just(Some(4000u16)), 1 => Just(Some(20000u16))],
         any::<bool>(),
-        0u8..2,
+        0u8..3,
         proptest::collection::vec((proptest::collection::vec(prop_oneof![2 => Just(false), 1 => Just(true)], 1..=3), 0u8..3), 1..5),
     )
         .prop_map(|(idle_timeout_ms, max_idle, client_timeout_ms, cont, builder_order, rounds)| RtCase { idle_timeout_ms, max_idle, client_timeout_ms, cont, builder_order, rounds })
